@@ -57,15 +57,21 @@ def _vec(v, prices, tg, T, default=0.0):
     return [zl(v)] * T
 
 
+def A(a, name, default=None):
+    """the value the harness passed to the constructor (falls back to the attribute)"""
+    from . import lift
+    return lift.ctor_arg(a, name, default)
+
+
 def _active(a, tg, tp):
-    s, e = _ts(a.start, tg.tz), _ts(a.end, tg.tz)
+    s, e = _ts(A(a, 'start'), tg.tz), _ts(A(a, 'end'), tg.tz)
     return [t for t in range(len(tp)) if (s is None or tp[t] >= s) and (e is None or tp[t] < e)]
 
 
 def _takes(a, tg, tp, dt, act, sign=1):
     out = []
     us = UNIT_S[tg.main_time_unit]
-    for sense, td in (('max', getattr(a, 'max_take', None)), ('min', getattr(a, 'min_take', None))):
+    for sense, td in (('max', A(a, 'max_take')), ('min', A(a, 'min_take'))):
         if td is None:
             continue
         for s, e, v in zip(td['start'], td['end'], td['values']):
@@ -86,32 +92,32 @@ def spec_from_shape(sh):
     for a in sh.portf.assets:
         cls = type(a).__name__
         act = _active(a, tg, tp)
-        base = dict(name=a.name, active=act, wacc=a.wacc, nodes=[n.name for n in a.nodes])
+        base = dict(name=a.name, active=act, wacc=A(a, 'wacc'), nodes=[n.name for n in a.nodes])
         if cls in ('SimpleContract', 'Contract', 'MultiCommodityContract'):
-            price = _vec(a.price, sh.prices, tg, T) if a.price is not None else [z3.RealVal(0)] * T
+            price = _vec(A(a, 'price'), sh.prices, tg, T) if A(a, 'price') is not None else [z3.RealVal(0)] * T
             d = dict(base, kind='contract' if cls != 'MultiCommodityContract' else 'multicommodity', price=price,
-                     min_cap=_vec(a.min_cap, sh.prices, tg, T), max_cap=_vec(a.max_cap, sh.prices, tg, T),
-                     extra_costs=_vec(a.extra_costs, sh.prices, tg, T), takes=_takes(a, tg, tp, dt, act))
+                     min_cap=_vec(A(a, 'min_cap'), sh.prices, tg, T), max_cap=_vec(A(a, 'max_cap'), sh.prices, tg, T),
+                     extra_costs=_vec(A(a, 'extra_costs'), sh.prices, tg, T), takes=_takes(a, tg, tp, dt, act))
             if cls == 'MultiCommodityContract':
-                d['factors'] = [zl(f) for f in a.factors_commodities]
+                d['factors'] = [zl(f) for f in A(a, 'factors_commodities')]
             assets.append(d)
         elif cls in ('Transport', 'ExtendedTransport'):
-            ts = _vec(a.costs_time_series, sh.prices, tg, T) if a.costs_time_series is not None else [z3.RealVal(0)] * T
-            cost = [c + zl(a.costs_const) for c in ts]
-            assets.append(dict(base, kind='transport', min_cap=zl(a.min_cap), max_cap=zl(a.max_cap), eff=zl(a.efficiency),
+            ts = _vec(A(a, 'costs_time_series'), sh.prices, tg, T) if A(a, 'costs_time_series') is not None else [z3.RealVal(0)] * T
+            cost = [c + zl(A(a, 'costs_const')) for c in ts]
+            assets.append(dict(base, kind='transport', min_cap=zl(A(a, 'min_cap')), max_cap=zl(A(a, 'max_cap')), eff=zl(A(a, 'efficiency')),
                                cost=cost, takes=_takes(a, tg, tp, dt, act)))
         elif cls == 'Storage':
-            assets.append(dict(base, kind='storage', size=zl(a.size), cap_in=zl(a.cap_in), cap_out=zl(a.cap_out),
-                               start=zl(a.start_level), end=zl(a.end_level), eff=zl(a.eff_in), inflow=zl(a.inflow),
-                               cost_in=zl(a.cost_in), cost_out=zl(a.cost_out), cost_store=zl(a.cost_store),
-                               price=(_vec(a.price, sh.prices, tg, T) if a.price is not None else None)))
+            assets.append(dict(base, kind='storage', size=zl(A(a, 'size')), cap_in=zl(A(a, 'cap_in')), cap_out=zl(A(a, 'cap_out')),
+                               start=zl(A(a, 'start_level')), end=zl(A(a, 'end_level')), eff=zl(A(a, 'eff_in')), inflow=zl(A(a, 'inflow')),
+                               cost_in=zl(A(a, 'cost_in')), cost_out=zl(A(a, 'cost_out')), cost_store=zl(A(a, 'cost_store')),
+                               price=(_vec(A(a, 'price'), sh.prices, tg, T) if A(a, 'price') is not None else None)))
         elif cls == 'OrderBook':
             orders = []
             uo = (getattr(sh, 'meta', None) or {}).get('user_orders', {}).get(a.name, a.orders)      # the orders as the user gave them
             for s, e, cp, pr in zip(uo['start'], uo['end'], uo['capa'], uo['price']):
                 s, e = _ts(s, tg.tz), _ts(e, tg.tz)
                 orders.append(dict(steps=[t for t in range(T) if s <= tp[t] < e], capa=zl(cp), price=zl(pr)))
-            assets.append(dict(base, kind='orderbook', orders=orders, full_exec=bool(a.full_exec)))
+            assets.append(dict(base, kind='orderbook', orders=orders, full_exec=bool(A(a, 'full_exec'))))
         else:
             raise KeyError('no reference for asset class ' + cls)
     return dict(T=T, dt=[ratval(d) for d in dt], dt_frac=dt, elapsed_days_end=el, assets=assets)
